@@ -1,24 +1,30 @@
 // c20.cpp — implementation side of the C20 correspondence, part 1: operation
 // histories on the generic array::ndarray_t (every shape-container kind x buffer
 // kind that has a resize member or a constant shape, row- and column-major).
+// C20_FORMS_REV 1
 //
 // case line:  hist S:<shape kind>/<buffer kind>/<layout> S:<op>;<op>;...
+//             histcast S:<kind> S:<ops> S:<kind tag>      (the history, then nm::cast(array, kind::<tag>))
 //   shape kind  d (std::vector)  f2 f3 (std::array)  b3 (utl::static_vector<.,3>)  h3 (array::static_vector<.,3>)
 //               l3x4 (tuple of clipped_size_t<3>,<4>)  l6x6 (std::array<clipped_size_t<6>,2>)  c2x3 (tuple of ct)
 //   buffer kind d (std::vector)  f6 f12 (std::array)  b12 (utl::static_vector<.,12>)  h12 (array::static_vector<.,12>)
 //   layout      r | c
-//   op   r2,3    resize to (2,3)                      -> flag T/F
+//   op   r<form>2,3  resize to (2,3), the request passed in the given argument form (c20_forms.hpp; no letter = v)
+//                    -> flag T/F; after an ACCEPTED resize a distinct value 1000*step+k is written through operator()
+//                    at the k-th index (nested-loop order) of EVERY index, so that every later read is determined
 //        w5=7    write 7 at the 5-th (mod size) index in nested-loop order
 //        c       copy-construct, continue on the copy (the original is scribbled on and destroyed)
 //        a2,3    assign from another array of the same type that was resized to (2,3) and filled with 100+k
 // result: one record per state (initial state first), separated by " ; ":
-//        <flag>|<shape>|<strides()>|<offset functor strides>|<size()>|<len(data_)>|<all elements via operator()>
+//   <flag>|<shape>|<strides()>|<offset functor strides>|<size()>|<len(data_)>|<all elements via operator()>|<raw buffer data_[0..]>
 #include "nmtools/array/ndarray.hpp"
 #include "nmtools/utl/static_vector.hpp"
-#include "show.hpp"
+#include "nmtools/utility/cast.hpp"
+#include "c20_forms.hpp"
 #include <memory>
 
 namespace na = nmtools::array;
+namespace kind = nmtools::array::kind;
 using namespace vd;
 
 template <typename C>
@@ -55,7 +61,17 @@ static std::string dump(const T& a, const char* flag) {
     if (total > 100000) return o + "huge";
     std::vector<size_t> idx(ext.size(), 0);
     for (size_t c = 0; c < total; c++) { o += (c ? "," : "") + std::to_string((ll)a(idx)); next_index(idx, ext); }
+    o += "|";
+    auto n = (size_t)nm::len(a.data_);
+    for (size_t c = 0; c < n; c++) o += (c ? "," : "") + std::to_string((ll)nm::at(a.data_, c));
     return o;
+}
+
+template <typename T>
+static void fill(T& a, ll base) {
+    auto ext = to_vec(a.shape()); size_t total = total_of(ext);
+    std::vector<size_t> idx(ext.size(), 0);
+    for (size_t c = 0; c < total; c++) { a(idx) = base + (ll)c; next_index(idx, ext); }
 }
 
 template <typename T>
@@ -68,22 +84,31 @@ static void scribble(T& a) {
     }
 }
 
+// run the history; returns false (and the reason in `out`) when an operation is not expressible for T
 template <typename T>
-static std::string run_history(const std::string& ops) {
-    auto cur = std::make_unique<T>();
-    std::string out = dump(*cur, "-");
-    size_t p = 0;
+static bool run_ops(std::unique_ptr<T>& cur, const std::string& ops, std::string& out) {
+    cur = std::make_unique<T>();
+    out = dump(*cur, "-");
+    size_t p = 0; int step = 0;
     while (p < ops.size()) {
         size_t q = ops.find(';', p); if (q == std::string::npos) q = ops.size();
         std::string o = ops.substr(p, q - p); p = q + 1;
         if (o.empty()) continue;
-        const char* flag = "-";
+        step++;
+        std::string flag = "-";
         if (o[0] == 'r') {
-            if constexpr (meta::is_constant_index_array_v<typename T::shape_type>) return "unsupported";
+            if constexpr (meta::is_constant_index_array_v<typename T::shape_type>) { out = "unsupported"; return false; }
             else {
-                auto sizes = vec_of<size_t>(parse_list(o.substr(1)));
-                bool r = cur->resize(sizes);
-                flag = r ? "T" : "F";
+                char form = 'v'; size_t at = 1;
+                if (o.size() > 1 && !isdigit((unsigned char)o[1])) { form = o[1]; at = 2; }
+                auto sizes = parse_list(o.substr(at));
+                // ndarray_t::resize indexes the request with a run-time i (loops at ndarray.hpp:104,149,162), so a tuple
+                // request (run-time or ct) never compiles although the signature accepts it; with a tuple shape_type the
+                // copy loop is unrolled with compile-time indices, so a fixed-size request must have exactly that rank
+                constexpr size_t fix = meta::is_tuple_v<typename T::shape_type> ? (size_t)meta::len_v<typename T::shape_type> : 99;
+                flag = c20::call_with_form<0, false, fix>(form, sizes, [&](const auto&... xs) -> std::string { return cur->resize(xs...) ? "T" : "F"; });
+                if (flag == "U") { out = "unsupported"; return false; }
+                if (flag == "T") fill(*cur, 1000 * (ll)step);
             }
         } else if (o[0] == 'w') {
             size_t e = o.find('=');
@@ -100,21 +125,64 @@ static std::string run_history(const std::string& ops) {
                 auto sizes = vec_of<size_t>(parse_list(o.substr(1)));
                 other.resize(sizes);
             }
-            auto ext = to_vec(other.shape()); size_t total = total_of(ext);
-            std::vector<size_t> idx(ext.size(), 0);
-            for (size_t c = 0; c < total; c++) { other(idx) = (ll)(100 + c); next_index(idx, ext); }
+            fill(other, 100);
             *cur = other;
             scribble(other);
-        } else return "unsupported";
-        out += " ; " + dump(*cur, flag);
+        } else { out = "unsupported"; return false; }
+        out += " ; " + dump(*cur, flag.c_str());
     }
-    return out;
+    return true;
+}
+
+// printer for the result of a cast: fixed / hybrid legacy arrays only take an index of their static arity
+template <typename X>
+static std::string show_any(const X& x) {
+    auto ext = to_vec(nm::shape(x));
+    std::string o = "ok " + joinv(ext) + " ;";
+    size_t total = total_of(ext);
+    std::vector<size_t> idx(ext.size(), 0);
+    constexpr auto DIM = meta::fixed_dim_v<X>;
+    for (size_t c = 0; c < total; c++) {
+        if constexpr (!meta::is_fail_v<decltype(DIM)>) {
+            std::array<size_t, (size_t)DIM> ai{}; for (size_t d = 0; d < (size_t)DIM; d++) ai[d] = idx[d];
+            o += (c ? "," : " ") + num_str(nm::apply_at(x, ai));
+        } else o += (c ? "," : " ") + num_str(nm::apply_at(x, idx));
+        next_index(idx, ext);
+    }
+    return o;
+}
+
+template <typename Src, typename K>
+static std::string to_kind(const Src& src, const K& k) {
+    using ret_t = meta::resolve_optype_t<nm::cast_kind_t, Src, K>;
+    if constexpr (meta::is_fail_v<ret_t>) return "unsupported";
+    else { auto x = nm::cast(src, k); return show_any(x); }
+}
+
+template <typename T>
+static std::string run_case(const std::string& op, const std::string& ops, const std::string& tag) {
+    std::unique_ptr<T> cur; std::string out;
+    if (!run_ops(cur, ops, out)) return out;
+    if (op == "hist") return out;
+#ifndef C20_NO_CAST
+#define K(name) if (tag == #name) return to_kind(*cur, kind::name);
+    K(dynamic) K(hybrid) K(fixed) K(ndarray_ls_db) K(ndarray_ls_hb)
+    // the ndarray_kind_t resolver (ndarray.hpp:731-752) evaluates its clipped-shape arm for every kind tag and reads
+    // Args[0] there: for a source with a fixed or bounded dim and a non-clipped tag that is a hard compile error
+    // (not a fail_t), so those combinations are only instantiated for sources with a dynamic or constant shape
+    using shape_t = typename T::shape_type;
+    if constexpr (std::is_same_v<shape_t, std::vector<size_t>> || meta::is_constant_index_array_v<shape_t>) {
+        K(ndarray_ds_db) K(ndarray_hs_hb) K(ndarray_fs_fb) K(ndarray_fs_db) K(ndarray_hs_db) K(ndarray_cs_fb) K(ndarray_ds_hb)
+    }
+#undef K
+#endif
+    return "unsupported";
 }
 
 template <typename buffer_t, typename shape_t>
-static std::string with_layout(const std::string& lay, const std::string& ops) {
-    if (lay == "r") return run_history<na::ndarray_t<buffer_t, shape_t>>(ops);
-    if (lay == "c") return run_history<na::column_major_ndarray_t<buffer_t, shape_t>>(ops);
+static std::string with_layout(const std::string& lay, const std::string& op, const std::string& ops, const std::string& tag) {
+    if (lay == "r") return run_case<na::ndarray_t<buffer_t, shape_t>>(op, ops, tag);
+    if (lay == "c") return run_case<na::column_major_ndarray_t<buffer_t, shape_t>>(op, ops, tag);
     return "unsupported";
 }
 
@@ -133,13 +201,14 @@ using bv_b12 = nm::utl::static_vector<ll, 12>;
 using bv_h12 = na::static_vector<ll, 12>;
 
 static std::string handle(const Case& c) {
-    if (c.op != "hist") return "unsupported";
-    std::string kind = c.args[0].raw.substr(2);
+    if (c.op != "hist" && c.op != "histcast") return "unsupported";
+    std::string kd = c.args[0].raw.substr(2);
     std::string ops = c.args.size() > 1 ? c.args[1].raw.substr(2) : std::string();
-    size_t a = kind.find('/'), b = kind.rfind('/');
-    std::string s = kind.substr(0, a), bk = kind.substr(a + 1, b - a - 1), lay = kind.substr(b + 1);
+    std::string tag = c.args.size() > 2 ? c.args[2].raw.substr(2) : std::string();
+    size_t a = kd.find('/'), b = kd.rfind('/');
+    std::string s = kd.substr(0, a), bk = kd.substr(a + 1, b - a - 1), lay = kd.substr(b + 1);
     std::string sb = s + "/" + bk;
-#define KIND(name, B, S) if (sb == name) return with_layout<B, S>(lay, ops);
+#define KIND(name, B, S) if (sb == name) return with_layout<B, S>(lay, c.op, ops, tag);
 #ifdef C20_PART_A
     KIND("d/d", bv_d, sv_d)     KIND("d/f6", bv_f6, sv_d)    KIND("d/f12", bv_f12, sv_d)  KIND("d/b12", bv_b12, sv_d)
     KIND("f2/d", bv_d, sv_f2)   KIND("f2/f6", bv_f6, sv_f2)  KIND("f2/b12", bv_b12, sv_f2) KIND("f3/d", bv_d, sv_f3)
